@@ -27,6 +27,21 @@ PROPS = {
         ],
         'not_decided': ['the 4096-byte buffer edge and multi-byte characters need no special treatment: the proof is over bytes and arbitrary chunk sizes'],
     },
+    'C04': {
+        'level': 'proof',
+        'explanation': 'process_input (body verbatim) is verified with a ghost log of executed batches: the concatenation of the batches is exactly the sequence of arguments read (history theorem), every batch was accepted argument by argument by the limiter chain starting from the template state (all limits at once, no leakage between batches), each batch is maximal (the argument that opened the next batch was rejected by the chain after the previous one), empty input runs exactly once iff neither -r nor -I, ArgumentTooLarge only when the argument is rejected by a fresh builder; the three limiter try_arg bodies are verified against the abstract Lim view (fits/charge, all-or-nothing, out_of_chars) in unit xlimits.',
+        'assumptions': [
+            'chain dispatch LimiterCursor::try_next / LimiterCollection::{try_arg, clone} (cyclic dyn, ~25 lines) assumed to be the conjunction over the chain with all-or-nothing update; checked bounded (chains <= 4) by the Kani harness in the thorough tier when available',
+            'CommandBuilder::execute: contract shared with unit xexec where the real body is verified',
+        ],
+        'not_decided': ['CommandBuilderOptions::new (initial arguments charged once to the template): adapter chain, see evidence of unit xlimits if present'],
+    },
+    'C19': {
+        'level': 'proof',
+        'explanation': 'CommandResult::combine is sticky; process_input folds the outcomes of the executed batches (ghost log): no batch is executed after a fatal outcome because `?` returns, result == fold_out(outcomes); CommandBuilder::execute classifies the exit status by the table of the statement (unit xexec); xargs_main maps outcomes to 0/123/124/125/126/127/1 (unit xexec).',
+        'assumptions': ['ExitStatus::{success, code, signal} consistency on unix (std)', 'the real From impls are one-liners checked against their FromSpecImpl companions (R15)'],
+        'not_decided': [],
+    },
 }
 for k in PROPS.values():
     k.setdefault('trusted', [])
